@@ -28,6 +28,9 @@ type c09Case struct {
 	// DupName (one aliased grouping expression E as g): the statement selects
 	// `E as g, g as gg` and groups by `gg, gg` - the same partition as group by g
 	DupName bool `json:"dup_name,omitempty"`
+	// Lim (no ORDER BY): `limit Lim[0], Lim[1]` behind GROUP BY - that window of
+	// the groups, each still folded over all of its pairs
+	Lim []int `json:"limit,omitempty"`
 }
 
 type c09Group struct {
@@ -475,6 +478,9 @@ func (c *c09Case) query() string {
 	if len(names) > 0 {
 		q += " group by " + strings.Join(names, ", ")
 	}
+	if len(c.Lim) == 2 {
+		q += fmt.Sprintf(" limit %d, %d", c.Lim[0], c.Lim[1])
+	}
 	return q
 }
 
@@ -649,6 +655,14 @@ func (c09) RunUnit(t core.Tier, u int, r *core.Reporter) {
 							d.DupName = true
 							c09RunCase(r, &d)
 						}
+						if len(un.groups) == 1 && len(as) == 1 && wi == 0 && (ai < 4 || ai%5 == 0) && (t == core.Thorough || ai < 2 && ci%2 == 0) {
+							// a window of the groups: those in it are still folded over all of their pairs
+							for _, lim := range [][]int{{0, 1}, {1, 1}, {0, 2}} {
+								l := c
+								l.Lim = lim
+								c09RunCase(r, &l)
+							}
+						}
 						if hideable && (si+ci)%2 == 0 {
 							h := c
 							h.Hide = true
@@ -728,6 +742,16 @@ func c09Judge(c *c09Case) (f *core.Failure, nontrivial bool, status, observed st
 			row = append(row, v.Canon())
 		}
 		want = append(want, row)
+	}
+	if len(c.Lim) == 2 {
+		lo, hi := c.Lim[0], c.Lim[0]+c.Lim[1]
+		if lo > len(groups) {
+			lo = len(groups)
+		}
+		if hi > len(groups) {
+			hi = len(groups)
+		}
+		groups, want = groups[lo:hi], want[lo:hi]
 	}
 	nontrivial = len(groups) >= 2
 	for _, g := range groups {
